@@ -42,6 +42,20 @@ def run(ctx):
                         except Exception as ex: e['raised'] = type(ex).__name__
                         ev.append(e); ctx.mark((buckets, wnd, chk, n, cls, force))
                     if not big and n < 256: pass
+    # inputs sitting exactly on the gates (non-zero bucket limits 64/65, 128/129, 17/18/24/25; L-value seams): their DATA comes from spec/kat/tlsh.ndjson
+    import json, os
+    katf = os.path.join(core.VERIF, 'spec', 'kat', 'tlsh.ndjson')
+    for line in open(katf):
+        q = json.loads(line)
+        if q.get('op') != 'hash' or not (q.get('note', '').startswith('nonzero') or q.get('note', '').startswith('L seam') or q.get('note') == 'uniform'): continue
+        data = bytes(sum(q['chunks'], []))
+        cfg = dict(buckets=q['buckets'], wnd=q['wnd'], chk=q['chk'])
+        e = dict(op='tlsh', cfg=cfg, data=B(data), force=bool(q['force']), raised='', obs=dict(none=True, digest=[]))
+        try:
+            r = T.TLSH(q['buckets'], q['wnd'], q['chk'])(data, bool(q['force']))
+            e['obs'] = dict(none=r is None, digest=[] if r is None else B(r))
+        except Exception as ex: e['raised'] = type(ex).__name__
+        ev.append(e); ctx.mark(('gate', q['note'], q['buckets'], q['wnd'], q['chk']))
     # the module-level singleton
     for n in (40, 300):
         data = text(n); e = dict(op='tlsh', cfg=dict(buckets=128, wnd=5, chk=1), data=B(data), force=False, raised='', obs=dict(none=True, digest=[]))
@@ -70,7 +84,7 @@ def run(ctx):
             ev.append(e); ctx.mark(('dist', buckets, wnd, chk, h1[:4].hex(), h2[:4].hex()))
     # Nilsimsa
     nds = {}
-    for target in ((None, 53, 17, 1, 255, 54, 0) if big else (None, 17, 54)):
+    for target in ((None, 53, 17, 1, 255, 54, 0) if big else (None, 17, 0)):
         tv = 53 if target is None else target
         for n in ([0, 1, 2, 3, 4, 5, 6, 20, 100, 300] + [32 * q + d for q in range(1, 9) for d in (2, 3, 4, 5)] if big else [0, 1, 3, 4, 5, 6, 40, 150, 34, 35, 36, 67, 68, 99, 100, 131]):   # incl. both sides of every step of the threshold (8n-28)//256
             data = text(n) if n % 2 else rb(n)
